@@ -95,6 +95,9 @@ func (m ImportMode) String() string {
 	return s
 }
 
+// RefDefaultWidth is the link width the reference importer uses when nothing is configured.
+var RefDefaultWidth = helpers.DefaultLinksPerBlock
+
 // RefImport runs the boxo reference importer, writing blocks into st.
 func RefImport(st *store.Store, r io.Reader, chunker string, width int, m ImportMode) (cid.Cid, uint64, error) {
 	spl, err := chunk.FromString(r, chunker)
